@@ -114,6 +114,11 @@ func OpenFile(name string, flag int, perm FileMode) (*File, error) {
 	if !ok {
 		return nil, refused("open", name)
 	}
+	if en, _, inj := simrt.InjectIO(t, c); inj {
+		err := &PathError{Op: "open", Path: name, Err: en}
+		simrt.Record(t, c, flag&(O_CREATE|O_TRUNC) != 0, 0, 0, err)
+		return nil, err
+	}
 	h, err := be.OpenFile(name, flag, perm)
 	var ino uint64
 	var f *File
@@ -142,6 +147,11 @@ func Rename(oldpath, newpath string) error {
 	if fi, e := be.Stat(oldpath); e == nil {
 		ino = fi.Ino
 	}
+	if en, _, inj := simrt.InjectIO(t, c); inj {
+		err := &LinkError{Op: "rename", Old: oldpath, New: newpath, Err: en}
+		simrt.Record(t, c, true, ino, 0, err)
+		return err
+	}
 	err := be.Rename(oldpath, newpath)
 	simrt.Record(t, c, true, ino, 0, err)
 	return err
@@ -167,6 +177,11 @@ func Remove(name string) error {
 	var ino uint64
 	if fi, e := be.Stat(name); e == nil {
 		ino = fi.Ino
+	}
+	if en, _, inj := simrt.InjectIO(t, c); inj {
+		err := &PathError{Op: "remove", Path: name, Err: en}
+		simrt.Record(t, c, true, ino, 0, err)
+		return err
 	}
 	err := be.Remove(name)
 	simrt.Record(t, c, true, ino, 0, err)
@@ -203,6 +218,11 @@ func Stat(name string) (FileInfo, error) {
 	if !ok {
 		return nil, refused("stat", name)
 	}
+	if en, _, inj := simrt.InjectIO(t, c); inj {
+		err := &PathError{Op: "stat", Path: name, Err: en}
+		simrt.Record(t, c, false, 0, 0, err)
+		return nil, err
+	}
 	fi, err := be.Stat(name)
 	simrt.Record(t, c, false, fi.Ino, 0, err)
 	if err != nil {
@@ -218,6 +238,11 @@ func ReadFile(name string) ([]byte, error) {
 	be, t, ok := simrt.Enter(c)
 	if !ok {
 		return nil, refused("open", name)
+	}
+	if en, _, inj := simrt.InjectIO(t, c); inj {
+		err := &PathError{Op: "read", Path: name, Err: en}
+		simrt.Record(t, c, false, 0, 0, err)
+		return nil, err
 	}
 	b, err := be.ReadFile(name)
 	simrt.Record(t, c, false, 0, len(b), err)
@@ -249,6 +274,11 @@ func ReadDirInfos(name string) ([]FileInfo, error) {
 	be, t, ok := simrt.Enter(c)
 	if !ok {
 		return nil, refused("open", name)
+	}
+	if en, _, inj := simrt.InjectIO(t, c); inj {
+		err := &PathError{Op: "open", Path: name, Err: en}
+		simrt.Record(t, c, false, 0, 0, err)
+		return nil, err
 	}
 	es, err := be.ReadDir(name)
 	simrt.Record(t, c, false, 0, len(es), err)
@@ -288,6 +318,11 @@ func CreateTemp(dir, pattern string) (*File, error) {
 	be, t, ok := simrt.Enter(c)
 	if !ok {
 		return nil, refused("open", c.Path)
+	}
+	if en, _, inj := simrt.InjectIO(t, c); inj {
+		err := &PathError{Op: "open", Path: c.Path, Err: en}
+		simrt.Record(t, c, true, 0, 0, err)
+		return nil, err
 	}
 	for try := 0; ; try++ {
 		name := filepath.Join(dir, prefix+strconv.FormatUint(simrt.NameValue()%1000000000, 10)+suffix)
@@ -372,6 +407,12 @@ func (f *File) Write(b []byte) (int, error) {
 	var err error
 	if f.st.Closed {
 		err = ErrClosed
+	} else if en, part, inj := simrt.InjectIO(t, c); inj {
+		// short write: a prefix reaches the file, then the error
+		if k := int(part % int64(len(b)+1)); k > 0 && k < len(b) && part >= 0 {
+			n, _ = f.st.H.Write(b[:k])
+		}
+		err = en
 	} else {
 		n, err = f.st.H.Write(b)
 	}
@@ -401,6 +442,8 @@ func (f *File) Read(b []byte) (int, error) {
 	var err error
 	if f.st.Closed {
 		err = ErrClosed
+	} else if en, _, inj := simrt.InjectIO(t, c); inj {
+		err = en
 	} else {
 		n, err = f.st.H.Read(b)
 	}
@@ -425,6 +468,8 @@ func (f *File) ReadAt(b []byte, off int64) (int, error) {
 		// as the real package: nothing to do, not even on a closed file
 	} else if f.st.Closed {
 		err = ErrClosed
+	} else if en, _, inj := simrt.InjectIO(t, c); inj {
+		err = en
 	} else {
 		n, err = f.st.H.ReadAt(b, off)
 	}
@@ -500,6 +545,8 @@ func (f *File) Stat() (FileInfo, error) {
 	var err error
 	if f.st.Closed {
 		err = ErrClosed
+	} else if en, _, inj := simrt.InjectIO(t, c); inj {
+		err = en
 	} else {
 		sz, err = f.st.H.Size()
 	}
@@ -526,6 +573,10 @@ func (f *File) Close() error {
 	} else {
 		f.st.Closed = true
 		err = f.st.H.Close()
+		if en, _, inj := simrt.InjectIO(t, c); inj && err == nil {
+			// the descriptor is released, the data written so far stays
+			err = en
+		}
 	}
 	err = f.wrap("close", err)
 	simrt.Record(t, c, false, ino, 0, err)
